@@ -309,6 +309,10 @@ def mujoco_part(ck):
             ck.count(f"mujoco/{name}/{comp['phase']}", int(comp.get("n", 0)))
             if not comp["ok"]:
                 summ["failed"].append(f"{comp['phase']}:{comp['name']}")
+            elif comp.get("n_beyond_tol"):
+                # contact-derived component with isolated samples beyond the tolerance (MJX vs MuJoCo-C contact activation)
+                summ.setdefault("isolated_contact_mismatches", []).append(f"{comp['phase']}:{comp['name']} {comp['n_beyond_tol']}/{comp['n']}")
+                ck.count("mujoco/isolated_contact_mismatches", int(comp["n_beyond_tol"]))
         failing = lambda ph: {c["name"]: c for c in comps if c["phase"] == ph and not c["ok"]}  # noqa: E731
         names_of = lambda ph: {c["name"] for c in comps if c["phase"] == ph}  # noqa: E731
         step_fail = {**failing("static"), **failing("step+cfrc"), **failing("step")}
@@ -375,7 +379,8 @@ def body(ck):
         "float32/float64 rounding; diffrax's Euler solver implementing y + dt*f (C17_cartpole_euler is about the formula)",
         "initial-state DISTRIBUTION (uniform): only the ranges are proved equal, sampling is explored (min/max of 4000 draws)",
         "out-of-range continuous actions: Gymnasium penalises the raw action, lerax the clipped one (outside the action space)",
-        "all MuJoCo statements: numeric differential against Gymnasium v5 with tolerances (MJX vs MuJoCo-C physics not modelled)",
+        "all MuJoCo statements: numeric differential against Gymnasium v5 with tolerances (MJX vs MuJoCo-C physics not modelled); contact-force-derived "
+        "components fail only on systematic disagreement (> 15% of the samples): the two engines may disagree on contact activation at touch-down instants",
         "Q reference twins in C17Check.v: the CartPole and MountainCar field twins are proved restrictions of the real reference "
         "(C17_*_ref_twin); the other twins (limits, steps, termination, Acrobot dsdt) mirror ClassicControl.v by construction only",
     ]
